@@ -256,6 +256,12 @@ def ce_cases(seed, quick=True):
             cases.append(('q%d' % k, hist, 8))
             k += 1
             cases.append(('q%d' % k, hist + [{'a': 'Reopen', 'same': False}], 8))
+            # the same history with the image written and opened again before the first removal: the
+            # allocator then works on areas it has read from the image (C02)
+            first_rm = next((i for i, a in enumerate(hist) if a['a'] == 'RmFile'), None)
+            if first_rm is not None:
+                k += 1
+                cases.append(('q%d' % k, hist[:first_rm] + [{'a': 'Reopen', 'same': False}] + hist[first_rm:], 8))
     return names, cases, [st]
 
 
